@@ -300,6 +300,12 @@ fn cmd_run(args: &[String]) -> i32 {
         eprintln!("HARNESS ERROR: {e}");
         return 2;
     }
+    if res.found.is_none() {
+        if let Some(e) = &res.nondeterminism {
+            eprintln!("HARNESS ERROR: {e} (no verdict: identical schedules gave different traces)");
+            return 2;
+        }
+    }
 
     let mut violations = 0;
     let mut exit = 0;
@@ -335,12 +341,26 @@ fn cmd_run(args: &[String]) -> i32 {
             &replay_dir,
         ) {
             Ok((path, _hash)) => {
-                // replay in a fresh process before reporting
+                // replay in a fresh process before reporting; when the code
+                // under test is itself nondeterministic (the recheck says so)
+                // the same class must reproduce at least once in a few tries
                 let exe = std::env::current_exe().unwrap();
-                let st = std::process::Command::new(exe)
-                    .args(["replay", &path, "--verify"])
-                    .stdout(std::process::Stdio::null())
-                    .status();
+                let tries = if res.nondeterminism.is_some() { 20 } else { 1 };
+                let mut st = Err(std::io::Error::other("not run"));
+                for _ in 0..tries {
+                    let mut cmd = std::process::Command::new(&exe);
+                    cmd.args(["replay", &path]);
+                    if res.nondeterminism.is_none() {
+                        cmd.arg("--verify");
+                    }
+                    st = cmd.stdout(std::process::Stdio::null()).status();
+                    if matches!(&st, Ok(s) if s.code() == Some(1)) {
+                        break;
+                    }
+                }
+                if let Some(n) = &res.nondeterminism {
+                    println!("note: {n}: the code under test behaves differently on identical schedules; the replay file reproduces the violation class but not necessarily the same trace");
+                }
                 match st {
                     Ok(s) if s.code() == Some(1) => {
                         println!("VIOLATION property={} replay={}", spec.id, path);
